@@ -36,7 +36,7 @@ vc.load_findings = _load_findings_latest
 def _design_cfg(path, budgets, boxes, objs, maxrank, maxinner, live=False, pols='"auto", "ignore", "keep"', metans="3"):
     with open(path, "w") as f:
         f.write("SPECIFICATION %s\nCONSTANTS\n  MetaNs = {%s}\n  Budgets = {%s}\n  Pols = {%s}\n  Objs <- %s\n  MaxRank = %d\n  MaxInner = %d\n"
-                "  Boxes <- %s\n  KConv = 1000\n  KConvX = 10\n" % ("Spec" if live else "SafetySpec", metans, budgets, pols, objs, maxrank, maxinner, boxes))
+                "  Boxes <- %s\n  KConv = 1000\n  KConvX = 10\n  KGap = 100\n" % ("Spec" if live else "SafetySpec", metans, budgets, pols, objs, maxrank, maxinner, boxes))
         if live:
             f.write("INVARIANTS TypeOK Budget\nPROPERTY Terminates\n")
         else:
